@@ -526,6 +526,8 @@ func govcRVEClass(m, i int) int                           { return 0 }
 func govcRVEWidth(m, i int) int                           { return 0 }
 func govcRVTypeTag(m, i int) int                          { return 0 }
 func govcTypeTag[T any]() int                             { return 0 }
+func govcIsLE(x interface{}) bool                         { return false }
+func govcIsBE(x interface{}) bool                         { return false }
 func govcIsEOF(err error) bool                            { return false }
 func govcIsUEOF(err error) bool                           { return false }
 func govcErrIs[T any](err error, target T) bool           { return false }
@@ -542,8 +544,12 @@ func genOverlay(cf *ContractFile) (string, error) {
 	body := &strings.Builder{}
 	body.WriteString(overlayPrelude)
 	for _, im := range cf.Imports {
+		if strings.Trim(im, `"`) == "time" {
+			body.WriteString("func govcTsec(t time.Time) int { return 0 }\nfunc govcTns(t time.Time) int { return 0 }\nfunc govcTzoff(t time.Time) int { return 0 }\nfunc govcTzid(t time.Time) int { return 0 }\n")
+		}
 		if strings.Trim(im, `"`) == "reflect" {
 			body.WriteString("func govcIfaceOf(v reflect.Value) interface{} { return v.Interface() }\n")
+			body.WriteString("func govcRvmt(v reflect.Value) int { return 0 }\nfunc govcRvfld(v reflect.Value) int { return 0 }\nfunc govcRvobj(v reflect.Value) int { return 0 }\nfunc govcRvcls(v reflect.Value) int { return 0 }\nfunc govcRvttag(v reflect.Value) int { return 0 }\nfunc govcRvstate(v reflect.Value) int { return 0 }\nfunc govcRvwid(v reflect.Value) int { return 0 }\nfunc govcRvecls(v reflect.Value) int { return 0 }\nfunc govcRvewid(v reflect.Value) int { return 0 }\nfunc govcRvvalid(v reflect.Value) bool { return v.IsValid() }\nfunc govcRvismsg(v reflect.Value, m int) bool { return true }\n")
 			body.WriteString("func govcMsgOf[T any](v reflect.Value) T { return v.Interface().(T) }\n")
 		}
 	}
@@ -685,7 +691,7 @@ func genOverlay(cf *ContractFile) (string, error) {
 	return b.String(), nil
 }
 
-var reBuiltin = regexp.MustCompile(`\b(old|ite|fresh|same|isNaN|ifaceOf|samebase|offset|isEOF|isUEOF|iserr|rvNumField|rvClass|rvWidth|rvEClass|rvEWidth|rvTypeTag)\(`)
+var reBuiltin = regexp.MustCompile(`\b(old|ite|fresh|same|isNaN|ifaceOf|samebase|offset|isEOF|isUEOF|iserr|isLE|isBE|rvmt|rvfld|rvobj|rvcls|rvttag|rvstate|rvwid|rvecls|rvewid|rvvalid|rvismsg|tsec|tns|tzoff|tzid|rvNumField|rvClass|rvWidth|rvEClass|rvEWidth|rvTypeTag)\(`)
 var reTypeIs = regexp.MustCompile(`\btypeis\[`)
 var reMsgOf = regexp.MustCompile(`\bmsgOf\[`)
 var reTypeTag = regexp.MustCompile(`\btypetag\[`)
@@ -710,6 +716,40 @@ func rewriteBuiltins(s string) string {
 			return "govcIsUEOF("
 		case "iserr(":
 			return "govcErrIs("
+		case "rvmt(":
+			return "govcRvmt("
+		case "rvfld(":
+			return "govcRvfld("
+		case "rvobj(":
+			return "govcRvobj("
+		case "rvcls(":
+			return "govcRvcls("
+		case "rvstate(":
+			return "govcRvstate("
+		case "rvttag(":
+			return "govcRvttag("
+		case "rvwid(":
+			return "govcRvwid("
+		case "rvecls(":
+			return "govcRvecls("
+		case "rvewid(":
+			return "govcRvewid("
+		case "rvvalid(":
+			return "govcRvvalid("
+		case "rvismsg(":
+			return "govcRvismsg("
+		case "tsec(":
+			return "govcTsec("
+		case "tns(":
+			return "govcTns("
+		case "tzoff(":
+			return "govcTzoff("
+		case "tzid(":
+			return "govcTzid("
+		case "isLE(":
+			return "govcIsLE("
+		case "isBE(":
+			return "govcIsBE("
 		case "rvNumField(":
 			return "govcRVNumField("
 		case "rvClass(":
